@@ -219,7 +219,20 @@ func registerIntrinsics(in *Interp) {
 	}
 	I["verif:verifTrace"] = func(st *State, fr *Frame, a []Value, _ ssa.Value) (Value, int) {
 		if len(st.trace) < 400 {
-			st.trace = append(st.trace, strArg(a[0]))
+			s := a[0].(Str)
+			if s.B != nil {
+				var sb strings.Builder
+				for _, b := range s.B {
+					if bi := b.(Int); bi.T == nil {
+						sb.WriteByte(byte(bi.C))
+					} else {
+						sb.WriteString("?")
+					}
+				}
+				st.trace = append(st.trace, sb.String())
+			} else {
+				st.trace = append(st.trace, s.S)
+			}
 		}
 		return done(nil)
 	}
